@@ -51,59 +51,7 @@ def run(ctx):
         ctx.ob(R1, 'SecondaryTransaction::start·takes-deletion-lock', ok,
                'SecondaryTransaction::start must acquire lock_for_deletion (for update transactions)')
 
-    R2 = 'C09-R2'
-    ctx.rule(R2, 'compact_table is called only from a block dominated by the Some arm of try_lock_for_compaction, and the '
-                 'guard is not dropped before compact_table completes')
-    calls = [c for c in prog.calls_matching_all(suffix('Compactor::compact_table')) if (c.fn or '').endswith('compact_table')]
-    ctx.floor(R2, len(calls), 1, 'compact_table call sites')
-    for c in calls:
-        b = c.body
-        ctx.functions_analysed.add(b.name)
-        tl = [x for x in b.calls if (x.fn or '').endswith('try_lock_for_compaction') or (x.fn or '').endswith('::lock_for_compaction')]
-        some_targets, guard_locals = [], []
-        for x in tl:
-            d = x.dest['l']
-            if (x.fn or '').endswith('::lock_for_compaction'):
-                some_targets.append(x.target)
-                guard_locals.append(d)
-                continue
-            for i, bl in enumerate(b.blocks):
-                t = bl['term']
-                if t['k'] == 'switch' and t.get('on') and t['on']['l'] == d and t.get('adt') == 'std::option::Option':
-                    for v, tgt in t['targets']:
-                        if t.get('variants', {}).get(v) == 'Some':
-                            some_targets.append(tgt)
-                    # guard local: moved out of the Some payload
-                    for j, st in b.stmts():
-                        rv = st.get('rv', {})
-                        if rv.get('rv') == 'use' and rv['op']['k'] == 'move' and rv['op']['pl']['l'] == d and \
-                                any(p.startswith('as:Some') for p in rv['op']['pl']['p']):
-                            guard_locals.append(st['lhs']['l'])
-        ok = bool(some_targets) and b.dominated_by_any(set(some_targets), c.bb)
-        ctx.ob(R2, f'{b.root}·compact_table-under-guard', ok,
-               f'compact_table call (block {c.bb}) must be dominated by a successful try_lock_for_compaction (Some arm '
-               f'blocks {some_targets})', [site(b, c.bb)])
-        # guard alive: no drop/move of the guard between acquisition and completion of compact_table
-        done = done_sites(prog, b, 'Compactor::compact_table')
-        early = []
-        for g in guard_locals:
-            for i, bl in enumerate(b.blocks):
-                if bl['cleanup']:
-                    continue
-                t = bl['term']
-                dropped = t['k'] == 'drop' and t['pl']['l'] == g and not t['pl']['p']
-                moved = t['k'] == 'call' and any(a['k'] == 'move' and a['pl']['l'] == g for a in t['args'])
-                if (dropped or moved) and some_targets:
-                    # is there a path lock -> i -> compact_table ?
-                    if i in b.reachable_from(some_targets) and any(x in b.reachable_from([i]) for x in done):
-                        # loops: a drop at the end of the iteration reaches the next iteration's call; ignore when the
-                        # path from i back to the call passes a new lock acquisition
-                        relock = {x.bb for x in tl}
-                        if any(x in b.reachable_from([i], avoid=relock) for x in done):
-                            early.append(i)
-        ctx.ob(R2, f'{b.root}·guard-outlives-compaction', bool(guard_locals) and not early,
-               f'guard locals {guard_locals}; dropped/moved before compact_table completes at blocks {early}',
-               [site(b, x) for x in early])
+    guard_rule(ctx, prog, 'C09-R2')
 
     R3 = 'C09-R3'
     ctx.rule(R3, 'single committer: Manifest::append is called only by commit_changes_with_custom_manifest, which is reached '
@@ -233,12 +181,14 @@ def run(ctx):
     from rules.c07 import compaction_touches_only_what_it_merged
     compaction_touches_only_what_it_merged(ctx, prog, 'C09-R5')
     lock_outlives_commit(ctx, prog)
+    # the swap of a compaction is committed where it was computed, under the guard (after seed C09-f): who may call commit_changes
+    from rules.c15 import committers_rule
+    committers_rule(ctx, prog, 'C09-R9')
 
 
-def lock_outlives_commit(ctx, prog):
+def lock_outlives_commit(ctx, prog, R8='C09-R8'):
     """C09-R8: the table lock of a deleting transaction is given back only after its commit is published"""
     from mir import operand_places
-    R8 = 'C09-R8'
     ctx.rule(R8, 'what a DELETE decided under the table lock (which rows, in which row-sets) stays true until its delete vectors are '
                  'published: the guard in SecondaryTransaction::delete_lock is never taken out, overwritten or dropped before '
                  'VersionManager::commit_changes has completed - it lives as long as the transaction object. Released earlier, a compaction '
@@ -323,3 +273,59 @@ def lock_then_pin(ctx, prog, R1):
                what=f'{b.root.rsplit("::", 2)[-2]}::{b.root.rsplit("::", 1)[-1]} pins its snapshot before taking the table '
                     f'lock: a writer that waited for the lock works on a stale snapshot (deletes lost / undone)')
     return n
+
+
+def guard_rule(ctx, prog, R2):
+    """C09-R2 = C07-R9: compaction runs under a live guard"""
+    ctx.rule(R2, 'compact_table is called only from a block dominated by the Some arm of try_lock_for_compaction, and the '
+                 'guard is not dropped before compact_table completes')
+    calls = [c for c in prog.calls_matching_all(suffix('Compactor::compact_table')) if (c.fn or '').endswith('compact_table')]
+    ctx.floor(R2, len(calls), 1, 'compact_table call sites')
+    for c in calls:
+        b = c.body
+        ctx.functions_analysed.add(b.name)
+        tl = [x for x in b.calls if (x.fn or '').endswith('try_lock_for_compaction') or (x.fn or '').endswith('::lock_for_compaction')]
+        some_targets, guard_locals = [], []
+        for x in tl:
+            d = x.dest['l']
+            if (x.fn or '').endswith('::lock_for_compaction'):
+                some_targets.append(x.target)
+                guard_locals.append(d)
+                continue
+            for i, bl in enumerate(b.blocks):
+                t = bl['term']
+                if t['k'] == 'switch' and t.get('on') and t['on']['l'] == d and t.get('adt') == 'std::option::Option':
+                    for v, tgt in t['targets']:
+                        if t.get('variants', {}).get(v) == 'Some':
+                            some_targets.append(tgt)
+                    # guard local: moved out of the Some payload
+                    for j, st in b.stmts():
+                        rv = st.get('rv', {})
+                        if rv.get('rv') == 'use' and rv['op']['k'] == 'move' and rv['op']['pl']['l'] == d and \
+                                any(p.startswith('as:Some') for p in rv['op']['pl']['p']):
+                            guard_locals.append(st['lhs']['l'])
+        ok = bool(some_targets) and b.dominated_by_any(set(some_targets), c.bb)
+        ctx.ob(R2, f'{b.root}·compact_table-under-guard', ok,
+               f'compact_table call (block {c.bb}) must be dominated by a successful try_lock_for_compaction (Some arm '
+               f'blocks {some_targets})', [site(b, c.bb)])
+        # guard alive: no drop/move of the guard between acquisition and completion of compact_table
+        done = done_sites(prog, b, 'Compactor::compact_table')
+        early = []
+        for g in guard_locals:
+            for i, bl in enumerate(b.blocks):
+                if bl['cleanup']:
+                    continue
+                t = bl['term']
+                dropped = t['k'] == 'drop' and t['pl']['l'] == g and not t['pl']['p']
+                moved = t['k'] == 'call' and any(a['k'] == 'move' and a['pl']['l'] == g for a in t['args'])
+                if (dropped or moved) and some_targets:
+                    # is there a path lock -> i -> compact_table ?
+                    if i in b.reachable_from(some_targets) and any(x in b.reachable_from([i]) for x in done):
+                        # loops: a drop at the end of the iteration reaches the next iteration's call; ignore when the
+                        # path from i back to the call passes a new lock acquisition
+                        relock = {x.bb for x in tl}
+                        if any(x in b.reachable_from([i], avoid=relock) for x in done):
+                            early.append(i)
+        ctx.ob(R2, f'{b.root}·guard-outlives-compaction', bool(guard_locals) and not early,
+               f'guard locals {guard_locals}; dropped/moved before compact_table completes at blocks {early}',
+               [site(b, x) for x in early])
